@@ -105,7 +105,22 @@ def run(ctx):
         src = norm(first[0].value)
         d0 = [n for n in walk_no_nested(v.fi.node) if isinstance(n, ast.Assign) and norm(n.targets[0]) == src and n.lineno < first[0].lineno]
         res.check(bool(d0) and norm(d0[-1].value) == "sum(I_0.values())", "D-SERIES", f, norm(d0[-1]) if d0 else src, "initial-count", "the initial value is not the number of initially infected nodes", loc(v.fi, first[0]))
-    inner = [s for s in st if s not in first]
+    # early termination only in the state that is absorbing for every rate triple (nobody infected)
+    res.rules["G-ABSORB"] = "the time loop runs while `Infected > 0 and t < T`: the only early exit is the die-out state, which is absorbing for all rates"
+    atoms = []
+    t_ = wl.test
+    vals = t_.values if isinstance(t_, ast.BoolOp) and isinstance(t_.op, ast.And) else [t_]
+    ok_guard = True
+    for a in vals:
+        txt = norm(a)
+        if txt in ("Infected > 0", "0 < Infected", "Infected != 0", "Infected"):
+            atoms.append("alive")
+        elif txt in ("t < T", "T > t"):
+            atoms.append("time")
+        else:
+            ok_guard = False
+    res.check(ok_guard and "time" in atoms and not (isinstance(t_, ast.BoolOp) and isinstance(t_.op, ast.Or)), "G-ABSORB", f, norm(wl.test), "loop-guard", "the simulation stops early in a state that is not absorbing for every rate triple (e.g. everybody infected, while recovery can still happen)", loc(v.fi, wl))
+    inner = [s for s in st if s not in first and wl in v.enclosing_all(s, (ast.While,))]
     res.check(len(inner) == 1 and any(inner[0] is x for x in wl.body) and inner[0].lineno > sw.end_lineno, "D-SERIES", f, norm(inner[0]) if inner else f"{series}[t] = Infected", "per-step", "the count is not recorded once per step after the sweep", loc(v.fi, wl))
     if inner:
         src = norm(inner[0].value)
